@@ -1,5 +1,6 @@
 import Driver.Proto
 import Driver.CmdFilter
+import Driver.CmdCtl
 open Lean Driver
 
 def dispatch (cmd : String) (j : Json) : R Json :=
@@ -7,6 +8,7 @@ def dispatch (cmd : String) (j : Json) : R Json :=
   | "ping" => pure (Json.str "pong")
   | "filter" => cmdFilter j
   | "prop.filter" => cmdPropFilter j
+  | "ctl.replay" => cmdCtlReplay j
   | _ => throw s!"unknown command '{cmd}'"
 
 def handleLine (line : String) : String :=
